@@ -28,7 +28,7 @@ func itemField(v ssa.Value) (item ssa.Value, field string, ok bool) {
 
 func ruleC17R2(w *World, r *Report) {
 	const rule = "C17/R2"
-	r.rule(rule, "walkMain pops the last stack item; for a nodes item it calls VisitMany(nodes) and pushes nodes[i] with visitor.Index(i) for i = len-1 down to 0 (same i); for a node item it calls Visit(node) and descends with walkInternal(node, <that visitor>, stack) only when the visitor is non-nil; Inspect's adapter returns itself iff f(node); Preorder's closure stops yielding after yield returned false", 8)
+	r.rule(rule, "walkMain pops the last stack item; for a nodes item it calls VisitMany(nodes) and pushes nodes[i] with visitor.Index(i) for i = len-1 down to 0 (same i); for a node item it calls Visit(node) and descends with walkInternal(node, <that visitor>, stack) only when the visitor is non-nil; Inspect's adapter returns itself iff f(node); Preorder's closure stops yielding after yield returned false", 4)
 	fn := w.fn(w.Ast, "walkMain")
 	if fn == nil {
 		r.errorf("ast.walkMain not found")
@@ -462,7 +462,7 @@ func (w *World) returnTable(fn *ssa.Function) []string {
 
 func ruleC19Helpers(w *World, r *Report) {
 	const rule = "C19/R1h"
-	r.rule(rule, "the helpers the generated Pos()/End() methods are made of have their documented contracts (read off the SSA as a table 'conditions -> returned term'): nodePos/nodeEnd: nil -> InvalidPos else n.Pos()/n.End(); posChoice: first valid element else InvalidPos; posAdd: invalid is absorbing else p + x; nodeChoice: first non-nil else nil; nodeSliceIndex/nodeSliceLast: empty -> nil else ns[i] / ns[len-1]; ifThenElse; wrapNode: zero -> nil else the node", 9)
+	r.rule(rule, "the helpers the generated Pos()/End() methods are made of have their documented contracts (read off the SSA as a table 'conditions -> returned term'): nodePos/nodeEnd: nil -> InvalidPos else n.Pos()/n.End(); posChoice: first valid element else InvalidPos; posAdd: invalid is absorbing else p + x; nodeChoice: first non-nil else nil; nodeSliceIndex/nodeSliceLast: empty -> nil else ns[i] / ns[len-1]; ifThenElse; wrapNode: zero -> nil else the node", 5)
 	want := map[string][]string{
 		"nodePos":        {"[!(p0==nil)] -> p0.Pos()", "[(p0==nil)] -> -1"},
 		"nodeEnd":        {"[!(p0==nil)] -> p0.End()", "[(p0==nil)] -> -1"},
